@@ -558,7 +558,8 @@ Definition withdraw_stake (c : cfg) (a endorser : N) (s : st) : res (st * N) :=
 
 Definition set_online (a : N) (online : bool) (s : st) : res (st * N) :=
   v <- get_existing s a;;
-  Ok (setv a (set_offline (if online then None else Some (blk s)) v) s, 0).
+  (* OfflineBlock is a *uint32 with rlp:"nil": a pointer to 0 is stored as the empty string and read back as nil *)
+  Ok (setv a (set_offline (if online then None else if blk s =? 0 then None else Some (blk s)) v) s, 0).
 
 Definition set_beneficiary (a endorser b : N) (s : st) : res (st * N) :=
   v <- get_or_revert s a;;
